@@ -1,4 +1,141 @@
-From Coq Require Import List NArith Bool.
-Require Import SetsModel.
-Theorem C05_stub : truthy None = false. Proof. reflexivity. Qed.
-Print Assumptions C05_stub.
+(* C05  SpecifierSet is the conjunction of its specifiers; & is intersection; str round trip.
+   Model: SetsModel (string level, mirrors SpecifierSet.__init__/contains/__and__/__str__/__eq__/__len__ and Specifier._canonical_spec
+   as they are after the fix: commits); single-specifier semantics from SpecContains.  A frozenset is the list of first occurrences
+   under Specifier.__eq__; its iteration order is an arbitrary permutation, so results are proved invariant under Permutation.
+   Standing premises, named where used:
+     wf_set S / wf_member sp  - no operator method raises on a member (holds for everything `Specifier` accepts: SpecLink.compare_op_total);
+     respects l               - members of l that are == as Specifier objects match the same candidates (C10's clause; trivially true
+                                when l holds no two different spellings of equal clauses: respects_of_literal);
+     reparses sp              - str(member) parses back to the member, is stripped and comma-free (parser completeness on the canonical
+                                layout is C12's; the comma exclusion is known finding D19).
+   This file holds statements only; proofs are in Sets/*.v. *)
+From Coq Require Import List Arith NArith Bool Lia Permutation.
+Import ListNotations.
+Require Import S1 VParse Py VMeaning SpecModel SpecParse Prefix SpecContains SortPerm SetModel SetsModel SetsBridge SetsFs SetsParse SetsLaws SpecOps VKeyEq.
+Open Scope N_scope.
+
+(* 1. with pre-releases enabled a set matches exactly when every member matches; every member gives an answer *)
+Theorem C05_conjunction S item c : wf_set S -> Version item = Some c ->
+  set_contains S (Some true) None item = Ans (forallb (fun m => accepts m item) (ms S)) /\
+  (forall m, In m (ms S) -> exists b, contains (m_sp m) (m_ov m) (Some true) item = Ans b).
+Proof. exact (set_conjunction S item c). Qed.
+Print Assumptions C05_conjunction.
+
+(* 2. the empty set matches everything (every final release whatever the setting) *)
+Theorem C05_empty_matches_everything S b inst item c : ms S = [] -> Version item = Some c ->
+  set_contains S (Some true) inst item = Ans true /\ (is_prerelease c = false -> set_contains S b inst item = Ans true).
+Proof. exact (empty_set_matches_everything S b inst item c). Qed.
+Print Assumptions C05_empty_matches_everything.
+
+(* 3. iteration order of the member set is irrelevant, for every call argument and installed flag *)
+Theorem C05_perm_invariant S S' arg inst item : Permutation (ms S) (ms S') -> ov S = ov S' -> wf_set S ->
+  set_contains S arg inst item = set_contains S' arg inst item.
+Proof. exact (contains_perm_invariant S S' arg inst item). Qed.
+Print Assumptions C05_perm_invariant.
+
+(* 4. order and duplication of the supplied clauses are irrelevant: the set built from l answers with the conjunction over ALL of l *)
+Theorem C05_clause_list l p b inst item c : respects l -> Forall (fun m => wf_member (m_sp m)) l -> Version item = Some c ->
+  set_contains (SpecifierSet_of l p) (Some b) inst item = Ans (set_cont b (truthy inst) l c).
+Proof. exact (contains_of_clause_list l p b inst item c). Qed.
+Print Assumptions C05_clause_list.
+Theorem C05_order_dup_irrelevant l l' p p' b inst item :
+  (forall m, In m l <-> In m l') -> respects l -> Forall (fun m => wf_member (m_sp m)) l ->
+  set_contains (SpecifierSet_of l p) (Some b) inst item = set_contains (SpecifierSet_of l' p') (Some b) inst item.
+Proof. exact (clause_order_dup_irrelevant l l' p p' b inst item). Qed.
+Print Assumptions C05_order_dup_irrelevant.
+Theorem C05_respects_literal l : literal l -> respects l.
+Proof. exact (respects_of_literal l). Qed.
+Print Assumptions C05_respects_literal.
+
+(* 5. spacing and stray commas: the constructor sees a text only through its stripped non-empty pieces *)
+Theorem C05_spacing_irrelevant ps qs p :
+  Forall (fun x => nochar 44 x = true) ps -> Forall (fun x => nochar 44 x = true) qs ->
+  filter nonempty (map py_strip ps) = filter nonempty (map py_strip qs) ->
+  SpecifierSet (join_with [44] ps) p = SpecifierSet (join_with [44] qs) p.
+Proof. exact (SpecifierSet_layout ps qs p). Qed.
+Print Assumptions C05_spacing_irrelevant.
+Theorem C05_strip_pad w1 s w2 : all_ws w1 = true -> all_ws w2 = true -> py_strip (w1 ++ s ++ w2) = py_strip s.
+Proof. exact (py_strip_pad w1 s w2). Qed.
+Print Assumptions C05_strip_pad.
+
+(* 6. a & b matches exactly what both match (explicit setting on the call) *)
+Theorem C05_and_is_both A B C b inst item c : set_and A B = Some C -> wf_set A -> wf_set B -> respects (ms A ++ ms B) ->
+  Version item = Some c ->
+  exists x y, set_contains A (Some b) inst item = Ans x /\ set_contains B (Some b) inst item = Ans y /\
+              set_contains C (Some b) inst item = Ans (x && y).
+Proof. exact (and_is_both A B C b inst item c). Qed.
+Print Assumptions C05_and_is_both.
+
+(* 7. & is commutative (same override, equal as sets, same error behaviour) and associative (literally, including the error cell) *)
+Theorem C05_and_comm A B : fs_ok (ms A) -> fs_ok (ms B) ->
+  match set_and A B, set_and B A with
+  | Some C, Some C' => ov C = ov C' /\ set_eqb C C' = true
+  | None, None => True
+  | _, _ => False
+  end.
+Proof. exact (and_comm A B). Qed.
+Print Assumptions C05_and_comm.
+Theorem C05_and_assoc A B C : obind (set_and A B) (fun AB => set_and AB C) = obind (set_and B C) (fun BC => set_and A BC).
+Proof. exact (and_assoc A B C). Qed.
+Print Assumptions C05_and_assoc.
+
+(* 8. & refuses exactly the contradictory overrides and otherwise carries the explicit one *)
+Theorem C05_and_error_iff A B :
+  set_and A B = None <-> (ov A = Some true /\ ov B = Some false) \/ (ov A = Some false /\ ov B = Some true).
+Proof. exact (and_error_iff A B). Qed.
+Print Assumptions C05_and_error_iff.
+Theorem C05_override_carried A B C : set_and A B = Some C -> ov C = match ov A with Some x => Some x | None => ov B end.
+Proof. exact (and_override_carried A B C). Qed.
+Print Assumptions C05_override_carried.
+
+(* 9. a & b is the set parsed from the concatenated clauses (same members, same representatives, same order) *)
+Theorem C05_and_is_concat a b pa pb A B : SpecifierSet a pa = Some A -> SpecifierSet b pb = Some B ->
+  exists C, SpecifierSet (a ++ 44 :: b) None = Some C /\
+            (forall o, SetModel.merge pa pb = Some o -> set_and A B = Some {| ms := ms C; ov := o |}) /\
+            (SetModel.merge pa pb = None -> set_and A B = None).
+Proof. exact (and_is_concat a b pa pb A B). Qed.
+Print Assumptions C05_and_is_concat.
+(* what the constructor builds is a frozenset (no two equal members), with the given override, of members without their own override *)
+Theorem C05_constructor_invariant s p S : SpecifierSet s p = Some S -> fs_ok (ms S) /\ ov S = p /\ Forall (fun m => m_ov m = None) (ms S).
+Proof. exact (SpecifierSet_fs_ok s p S). Qed.
+Print Assumptions C05_constructor_invariant.
+
+(* 10. str() does not depend on the iteration order of the member set *)
+Theorem C05_str_deterministic S S' : Permutation (ms S) (ms S') -> set_str S = set_str S'.
+Proof. exact (str_deterministic S S'). Qed.
+Print Assumptions C05_str_deterministic.
+
+(* 11. str() parses back to an equal set with the same string form - outside D19 *)
+Theorem C05_str_reparse S p : fs_ok (ms S) -> Forall (fun m => reparses (m_sp m)) (ms S) ->
+  exists S', SpecifierSet (set_str S) p = Some S' /\ set_eqb S S' = true /\ ov S' = p /\ set_str S' = set_str S.
+Proof. exact (str_reparse S p). Qed.
+Print Assumptions C05_str_reparse.
+(* D19: for the member ===a,b the string form does not parse at all, so the exclusion in `reparses` is needed *)
+Theorem C05_str_reparse_refuted_D19 :
+  Specifier [61;61;61;97;44;98] = Some d19_member /\
+  SpecifierSet (set_str (SpecifierSet_of [mk_member d19_member] None)) None = None.
+Proof. split; [exact d19_is_a_specifier | exact str_reparse_refuted_D19]. Qed.
+Print Assumptions C05_str_reparse_refuted_D19.
+
+(* NOT PROVED here (covered by correspondence and the law.s.* cases only):
+   - wf_member for every constructor-accepted specifier (lead: SpecLink.compare_op_total) and `respects` for differently spelled
+     equal clauses (C10: equal specifiers match the same candidates);
+   - `reparses sp` for every constructor-accepted comma-free specifier (C12 completeness of the specifier scanner on str(sp)). *)
+
+(* non-vacuity: ">=1.0" is a wf_member, " >=1.0 ,, <2 " parses to a two-member set that contains 1.5 and not 2.0,
+   and its str() is "<2,>=1.0" *)
+Example C05_nonvacuous_wf_member : wf_member {| sp_op := OGe; sp_text := [49;46;48] |}.
+Proof.
+  intros c Wc. cbn [compare_op sp_op sp_text].
+  assert (V : Version [49;46;48] = Some {| Py.epoch := 0; Py.release := [1;0]; Py.pre := None; Py.post := None; Py.dev := None; Py.local := None |})
+    by (vm_compute; reflexivity).
+  rewrite (cmp_ge_spec c _ _ Wc (Version_wf _ _ V) V). discriminate.
+Qed.
+Example C05_nonvacuous :
+  exists S, SpecifierSet [32;62;61;49;46;48;32;44;44;32;60;50;32] None = Some S /\ length (ms S) = 2%nat /\
+            set_contains S (Some true) None [49;46;53] = Ans true /\ set_contains S (Some true) None [50;46;48] = Ans false /\
+            set_str S = [60;50;44;62;61;49;46;48] /\ literal (ms S).
+Proof.
+  eexists. split; [vm_compute; reflexivity|]. repeat split; try (vm_compute; reflexivity).
+  intros x y [<-|[<-|[]]] [<-|[<-|[]]]; vm_compute; intros; congruence.
+Qed.
